@@ -62,6 +62,6 @@ def units(tier):
                 f"exists(upstream_stages, lambda u: u is not None and u.ref_id in {ACT} and {halt}), result.phase != Phase.READY)"),
             Obl("C03/readiness/no-exception", "False", when="raise"),
         ])
-    from . import handlers
+    from . import handlers, sqlunits
 
     return [U] + handlers.units_for("C03")
